@@ -8,9 +8,9 @@
 static CC_PQueue *pq = NULL;
 static int mode = 0;   /* 0 div16, 1 full, 2 rev16, 3 tie */
 
-static int cmp_div16(const void *a, const void *b) { uintptr_t x = (uintptr_t)a / 16, y = (uintptr_t)b / 16; return (x > y) - (x < y); }
+static int cmp_div16(const void *a, const void *b) { uintptr_t x = (uintptr_t)a / 16, y = (uintptr_t)b / 16; return (x > y) ? 5 : (x < y) ? -3 : 0; }   /* legal comparators need not return -1/0/1 */
 static int cmp_rev16(const void *a, const void *b) { return cmp_div16(b, a); }
-static int cmp_full(const void *a, const void *b)  { uintptr_t x = (uintptr_t)a, y = (uintptr_t)b; return (x > y) - (x < y); }
+static int cmp_full(const void *a, const void *b)  { uintptr_t x = (uintptr_t)a, y = (uintptr_t)b; return (x > y) ? 5 : (x < y) ? -3 : 0; }   /* legal comparators need not return -1/0/1 */
 static int cmp_tie(const void *a, const void *b)   { (void)a; (void)b; return 0; }
 
 static unsigned long long prio(void *p) {
@@ -24,7 +24,7 @@ static void remember(unsigned long long v) {
     if (npopped == cpopped) { cpopped = cpopped ? 2 * cpopped : 256; popped = (realloc)(popped, cpopped * sizeof *popped); }
     popped[npopped++] = v;
 }
-static int cmp_ull(const void *a, const void *b) { unsigned long long x = *(const unsigned long long *)a, y = *(const unsigned long long *)b; return (x > y) - (x < y); }
+static int cmp_ull(const void *a, const void *b) { unsigned long long x = *(const unsigned long long *)a, y = *(const unsigned long long *)b; return (x > y) ? 5 : (x < y) ? -3 : 0; }   /* legal comparators need not return -1/0/1 */
 static void print_sorted(unsigned long long *v, size_t n) {
     qsort(v, n, sizeof *v, cmp_ull);
     for (size_t i = 0; i < n; i++) printf("%s%llu", i ? " " : "", v[i]);
